@@ -181,7 +181,10 @@ def answerExpat (ws : List String) : String :=
       let arm := match s with
         | .zero => "zero"
         | .at t => if t == 0 then "epoch" else if t == n then "eq-now" else if t < n then "before" else "after"
-      if res == want then "ok arm=expat-" ++ arm else "diff arm=expat-" ++ arm ++ " model=" ++ want
+      -- the statement's "expired": an expiry strictly before now (`specExpired`, Spec/C10)
+      if res == want then "ok arm=expat-" ++ arm
+      else if (res == "1") != specExpired n s then "propfail expired_iff_expiry_strictly_before_now arm=expat-" ++ arm
+      else "diff arm=expat-" ++ arm ++ " model=" ++ want
     | _, _ => "bad-case parse"
   | _ => "bad-case parse"
 
